@@ -281,6 +281,10 @@ def match_known(v, known):
             continue
         if sig.get("zero_duration") and v.get("case", {}).get("duration") != 0:
             continue
+        if sig.get("nested") and not v.get("case", {}).get("nested"):
+            continue
+        if "what_contains" in sig and sig["what_contains"] not in v.get("what", ""):
+            continue
         if sig.get("zero_auto"):
             case = v.get("case", {})
             sp = case.get("spec")
@@ -301,6 +305,18 @@ def known_still_fails(k):
     w = k.get("witness")
     if not w:
         return False
+    if w.get("kind") in ("sim-exception", "sim-pred"):
+        try:
+            from lockstep import run_real
+            from real import snapshot
+            import preds
+            project, ix, model, pre, snaps, exc = run_real(w["spec"], w["params"])
+            if w["kind"] == "sim-exception":
+                return exc is not None
+            run = dict(pre=pre, snaps=snaps, final=snapshot(project, ix), exc=None)
+            return exc is not None or bool(preds.PREDS[k["property"]](model, w["params"], run))
+        except Exception:
+            return True
     if w.get("kind") == "c20-zero":
         import persist
         try:
@@ -387,6 +403,64 @@ def pure_then_sim(pure_fn, quick_pure, thorough_pure, quick_sim=128, thorough_si
     return run
 
 
+def nest_spec(rng, spec):
+    """turn the flat product of a spec into a forest (component i may become a child of some j < i)"""
+    cs = spec.get("components", [])
+    if len(cs) < 2:
+        return False
+    done = False
+    for i in range(1, len(cs)):
+        if rng.random() < 0.7:
+            cs[rng.randrange(i)].setdefault("children", []).append(i)
+            done = True
+    return done
+
+
+NESTED_KNOWN_PREFIXES = ("task", "component")   # see known_findings.json: C13-F15-nested-*
+
+
+def run_c13_full(ctx):
+    """flat products: lockstep + predicate (the claimed fragment); nested products: predicate only"""
+    import random
+    import gen
+    import preds
+    from lockstep import run_real
+    from real import snapshot
+    results = simstream.run_stream(ctx.seed, ctx.n(480, 16000), "full", [ctx.pid])
+    absorb_sim(ctx, results, "full")
+    n = ctx.n(100, 6000)
+    cnt = dict(cases=0, exceptions=0, violations=0)
+    for i in range(n * 2):
+        if cnt["cases"] >= n:
+            break
+        rng = random.Random(ctx.seed * 7907 + i)
+        spec = gen.gen_facility_theme(rng) if rng.random() < 0.7 else gen.gen_spec(rng, "full")
+        if not spec.get("components") or not nest_spec(rng, spec):
+            continue
+        params = dict(gen.gen_params(rng, spec), maxTime=40)
+        cnt["cases"] += 1
+        case = dict(stream="nested", spec=spec, params=params, nested=True)
+        try:
+            project, ix, model, pre, snaps, exc = run_real(spec, params)
+        except Exception as e:
+            ctx.infra.append("nested case %d: %r" % (i, e))
+            continue
+        if exc is not None:
+            cnt["exceptions"] += 1
+            ctx.violations.append(dict(property="C13", what="simulate raised %s: %s" % (type(exc).__name__, exc), case=case))
+            continue
+        run = dict(pre=pre, snaps=snaps, final=snapshot(project, ix), exc=None)
+        for v in preds.pred_C13(model, params, run)[:1]:
+            cnt["violations"] += 1
+            v = dict(v)
+            v["case"] = case
+            ctx.violations.append(v)
+    ctx.evaluations += cnt["cases"]
+    ctx.distribution["nested_products"] = cnt
+    ctx.rule += ("; plus NESTED products (search only, outside the model): the same generators with the components turned into a random "
+                 "forest, real runs only, the C13 predicate evaluated on every boundary; the known nested-product findings are matched by category")
+
+
 def run_c19(ctx):
     import purestream
     purestream.run_c19(ctx)
@@ -395,6 +469,7 @@ def run_c19(ctx):
 REGISTRY = {}
 for _pid in ("C01", "C02", "C03", "C04", "C05", "C06", "C07", "C08", "C10", "C13", "C14"):
     REGISTRY[_pid] = dict(run=sim_runner(), footprint_doc="fields %s, phases %s" % FOOTPRINT[_pid])
+REGISTRY["C13"]["run"] = run_c13_full
 
 import purestream as _ps
 REGISTRY["C11"] = dict(run=pure_then_sim(_ps.run_c11_pure, 120, 6000), footprint_doc="sort_task/worker/facility/workplace_list (pure stream); allocate x allocation fields")
